@@ -8,7 +8,6 @@ package verifsync
 import "sync"
 
 type (
-	Pool      = sync.Pool
 	Once      = sync.Once
 	WaitGroup = sync.WaitGroup
 	Map       = sync.Map
@@ -16,10 +15,69 @@ type (
 	Cond      = sync.Cond
 )
 
-func NewCond(l Locker) *Cond                       { return sync.NewCond(l) }
-func OnceFunc(f func()) func()                     { return sync.OnceFunc(f) }
-func OnceValue[T any](f func() T) func() T         { return sync.OnceValue(f) }
+func NewCond(l Locker) *Cond                                   { return sync.NewCond(l) }
+func OnceFunc(f func()) func()                                 { return sync.OnceFunc(f) }
+func OnceValue[T any](f func() T) func() T                     { return sync.OnceValue(f) }
 func OnceValues[T1, T2 any](f func() (T1, T2)) func() (T1, T2) { return sync.OnceValues(f) }
+
+// Epoch is advanced by the simulator for every world it runs: pooled objects never travel from one world to the next
+// (a package-level pool would otherwise make a run depend on what the process executed before it).
+var Epoch int
+
+// PoolGets / PoolHits count simulated pool traffic (a reach probe).
+var PoolGets, PoolHits int
+
+// Pool is sync.Pool made repeatable: inside simulated tasks it is a plain most-recently-released-first free list that
+// never drops anything - the policy under which state left in a recycled object is certain to meet its next user, and
+// the same in every execution of a plan. (The repository's byte-buffer pool has its own, richer stand-in behind the
+// verif hook; this one covers every other pool, including ones added later.)
+type Pool struct {
+	New func() any
+
+	real  sync.Pool
+	items []any
+	epoch int
+}
+
+func (p *Pool) Get() any {
+	if b := Block; b != nil && b("", nil) {
+		if p.epoch != Epoch {
+			p.items, p.epoch = nil, Epoch
+		}
+		PoolGets++
+		if n := len(p.items); n > 0 {
+			x := p.items[n-1]
+			p.items = p.items[:n-1]
+			PoolHits++
+			return x
+		}
+		if p.New != nil {
+			return p.New()
+		}
+		return nil
+	}
+	if x := p.real.Get(); x != nil {
+		return x
+	}
+	if p.New != nil {
+		return p.New()
+	}
+	return nil
+}
+
+func (p *Pool) Put(x any) {
+	if x == nil {
+		return
+	}
+	if b := Block; b != nil && b("", nil) {
+		if p.epoch != Epoch {
+			p.items, p.epoch = nil, Epoch
+		}
+		p.items = append(p.items, x)
+		return
+	}
+	p.real.Put(x)
+}
 
 // Block is installed by the simulator. It returns false when the caller is not a simulated task (use the real lock);
 // otherwise it parks the task until cond holds or the world is being torn down, and returns true.
